@@ -179,6 +179,12 @@ impl PeerHandler {
     }
 
     pub async fn run_incoming(&mut self) {
+        #[cfg(feature = "verif")]
+        if let Some(mem) = crate::verif::dial(&self.connection.addr) {
+            self.connection.with_mem(mem);
+            self.run().await;
+            return;
+        }
         match TcpStream::connect(&self.connection.addr).await {
             Ok(socket) => {
                 self.connection.with_socket(socket);
@@ -200,6 +206,12 @@ impl PeerHandler {
         self.run().await;
     }
 
+    #[cfg(feature = "verif")]
+    pub async fn run_mem(&mut self, mem: tokio::io::DuplexStream) {
+        self.connection.with_mem(mem);
+        self.run().await;
+    }
+
     async fn run(&mut self) {
         let reason = match self.event_loop().await {
             Ok(_) => "End job normally".to_string(),
@@ -210,6 +222,8 @@ impl PeerHandler {
     }
 
     async fn kill_req(addr: &String, reason: &String, peer_ch: &mut mpsc::Sender<PeerCmd>) {
+        #[cfg(feature = "verif")]
+        crate::verif::failpoint("before_kill").await;
         peer_ch
             .send(PeerCmd::KillReq {
                 addr: addr.clone(),
@@ -282,6 +296,8 @@ impl PeerHandler {
             BroadCmd::SendHave { piece_index } => {
                 if let Some(piece_rx) = &self.piece_rx {
                     if piece_rx.piece_index == piece_index {
+                        #[cfg(feature = "verif")]
+                        crate::verif::failpoint("before_cancel").await;
                         for (block_begin, block_length) in &piece_rx.requested {
                             self.connection
                                 .send_msg(&Cancel::new(piece_index, *block_begin, *block_length))
@@ -453,6 +469,8 @@ impl PeerHandler {
         if piece_rx.left.is_empty() && piece_rx.requested.is_empty() {
             self.verify_piece_hash()?;
             self.save_piece_to_file().await?;
+            #[cfg(feature = "verif")]
+            crate::verif::failpoint("after_save").await;
             return Ok(self.trigger_cmd_piece_finish(true).await?);
         } else {
             self.send_request().await?;
@@ -489,6 +507,8 @@ impl PeerHandler {
             .send_msg(&Handshake::new(&self.info_hash, &self.own_id))
             .await?;
 
+        #[cfg(feature = "verif")]
+        crate::verif::failpoint("before_init").await;
         let (resp_tx, resp_rx) = oneshot::channel();
         self.peer_ch
             .send(PeerCmd::Init {
@@ -506,6 +526,8 @@ impl PeerHandler {
     }
 
     async fn trigger_cmd_recv_choke(&mut self) -> Result<(), Box<dyn std::error::Error>> {
+        #[cfg(feature = "verif")]
+        crate::verif::failpoint("before_choke_cmd").await;
         self.peer_ch
             .send(PeerCmd::RecvChoke {
                 addr: self.connection.addr.clone(),
@@ -516,6 +538,8 @@ impl PeerHandler {
     }
 
     async fn trigger_cmd_recv_unchoke(&mut self) -> Result<(), Box<dyn std::error::Error>> {
+        #[cfg(feature = "verif")]
+        crate::verif::failpoint("before_unchoke_cmd").await;
         let (resp_tx, resp_rx) = oneshot::channel();
         self.peer_ch
             .send(PeerCmd::RecvUnchoke {
@@ -663,6 +687,8 @@ impl PeerHandler {
             },
         };
 
+        #[cfg(feature = "verif")]
+        crate::verif::failpoint("before_piece_finish_cmd").await;
         self.peer_ch.send(cmd).await?;
 
         match resp_rx.await? {
